@@ -1475,7 +1475,18 @@ pub fn gen_quit(rng: &mut Rng) -> E2Scn {
         // job state at the moment of the quit
         let mut ops: Vec<Op> = Vec::new();
         let mut later: Vec<(u64, Op)> = Vec::new();
-        match rng.below(9) {
+        match rng.below(11) {
+            9 => {
+                // abort / quit lands while the job task awaits an async spawn hook (nothing spawned yet)
+                ops.push(Op::SetHook { async_ms: Some(*rng.pick(&[5u64, 50, 500])) });
+                ops.push(Op::Start);
+            }
+            10 => {
+                // ... or an async error handler after a failed spawn
+                ops.push(Op::SetErr { async_ms: Some(*rng.pick(&[5u64, 50])) });
+                ops.push(Op::Start);
+                ops.push(Op::Start);
+            }
             0 => {} // never started
             1 | 2 => ops.push(Op::Start), // running (or finished if it exits by itself)
             3 => {
